@@ -324,6 +324,21 @@ func lossKind(l wtlab.Loss, cur, tgt gen.Tree) string {
 	return l.Kind
 }
 
+// keyKind: for KeepReset the defect depends on whether the switch touches the path
+// (go-git refuses on touched paths and loses changes on untouched ones), so the
+// relation is part of the finding key there.
+func keyKind(fam string, l wtlab.Loss, cur, tgt gen.Tree) string {
+	k := lossKind(l, cur, tgt)
+	if fam == "reset-keep" && l.Kind != "untracked" {
+		rel := wtlab.Rel(l.Path, cur, tgt)
+		if strings.HasPrefix(rel, "deleted") {
+			rel = "deleted"
+		}
+		k += "@" + rel
+	}
+	return k
+}
+
 func runCase(c *vf.Ctx, g *gitx.Git, bases []*wtlab.Base, k caseT) {
 	b := bases[k.Base]
 	dir := filepath.Join(c.Scratch, fmt.Sprintf("case%d", k.I))
@@ -443,8 +458,8 @@ func runCase(c *vf.Ctx, g *gitx.Git, bases []*wtlab.Base, k caseT) {
 			}
 		}
 		what := lossWhat(l)
-		kind := lossKind(l, cur, tgt)
 		fam := opFamily(k.Op)
+		kind := keyKind(fam, l, cur, tgt)
 		if os.Getenv("VERIF_DEBUG_LOSS") != "" {
 			fmt.Printf("LOSS case=%d op=%s cur=c%d tgt=c%d edits=%+v loss=%+v rel=%s goerr=%v git=%s gitSame=%v prestatus=%q\n", k.I, k.Op, k.Cur, k.Tgt, k.Edits, l, wtlab.Rel(l.Path, cur, tgt), opErr, gres.String(), gitSame, pre.St.Status)
 		}
